@@ -375,7 +375,7 @@ func TestC16(t *testing.T) {
 				hv[0] = hv[0][:200]
 			}
 		}
-		onMode := rng.IntN(6) // 0 nil func, 1 (nil,true), 2 (topics,true), 3 (x,false) silent, 4 (x,false) writes 403, 5 (empty slice,true)
+		onMode := rng.IntN(7) // 0 nil func, 1 (nil,true), 2 (topics,true), 3 (x,false) silent, 4 (x,false) writes 403, 5 (empty slice,true), 6 (one topic,true)
 		subRefuses := rng.IntN(4) == 0
 		sendsFirst := rng.IntN(3) == 0
 		firstFlushFails := sendsFirst && rng.IntN(3) == 0 && strings.Contains(shape, "flusherror") || sendsFirst && rng.IntN(3) == 0 && strings.Contains(shape, "both")
@@ -447,6 +447,9 @@ func TestC16(t *testing.T) {
 			}
 		case 5:
 			srv.OnSession = func(http.ResponseWriter, *http.Request) ([]string, bool) { onCalled++; return []string{}, true }
+		case 6:
+			topics = []string{"only"}
+			srv.OnSession = func(http.ResponseWriter, *http.Request) ([]string, bool) { onCalled++; return topics, true }
 		}
 		srv.ServeHTTP(w, req)
 		r.Count("servehttp_executions", 1)
@@ -482,7 +485,7 @@ func TestC16(t *testing.T) {
 				fs = append(fs, jvf([]string{"last_event_id_wrong"}, "header %q gave Subscription.LastEventID=%q set=%v, want set=%v", hv, sub.LastEventID.String(), sub.LastEventID.IsSet(), wantSet))
 			}
 			wantTopics := []string{sse.DefaultTopic}
-			if onMode == 2 {
+			if onMode == 2 || onMode == 6 {
 				wantTopics = topics
 			}
 			if !eqStrings(sub.Topics, wantTopics) {
@@ -534,6 +537,16 @@ func TestC16(t *testing.T) {
 		key := fw.Key("D", 0)
 		r.Begin(key, "publish topics")
 		prov := &recProvider{}
+		// Shutdown may be the first thing ever called on a Server (with and without a Provider)
+		func() {
+			defer func() {
+				if p := recover(); p != nil {
+					r.Violation(key, []string{"server_shutdown_first_panics"}, nil, "C16: Shutdown as the first call on a Server panics: %v", p)
+				}
+			}()
+			(&sse.Server{}).Shutdown(context.Background())
+			(&sse.Server{Provider: &recProvider{}}).Shutdown(context.Background())
+		}()
 		srv := &sse.Server{Provider: prov}
 		mm := &sse.Message{}
 		mm.AppendData("x")
